@@ -192,71 +192,113 @@ def run(R):
     # ---- STRUCT
     ra = repo.fn("asynq_to_async.resolve_awaitables")
     par = q.param_names(ra.node)[0]
-    arms = {}
-    default_raise = []
+    # Each kind of yielded object is followed through the function's flow graph: at a kind test (isinstance(x, K), x is None - also one
+    # kept in a boolean local) only the edge that holds for an object of exactly that kind is taken.  What such an object reaches must be
+    # one return of the expected shape (locals that merely name a sub-expression are looked through); anything else reaches the TypeError.
+    import re as _re
+    KINDS = ("Awaitable", "ConstFuture", "BatchItemBase", "list", "tuple", "dict")
+    rcfg = cfg_of(ra)
 
-    class _Rest(object):
-        def __init__(self, body, orelse=()):
-            self.body = list(body)
-            self.orelse = list(orelse)
+    def truth_of(expr, kind, flags):
+        """True/False when the test is decided for an object of `kind`, None when it is not a kind test."""
+        k, subj, pos = q.atom_test(expr)
+        val = None
+        if k == "isinstance" and subj[0] == par:
+            names = set(x_.split(".")[-1] for x_ in _re.findall(r"[A-Za-z_][A-Za-z_0-9.]*", subj[1]))
+            if names and names <= set(KINDS):
+                val = kind in names
+        elif k == "isnone" and subj == par:
+            val = kind == "None"
+        elif k == "truth" and isinstance(subj, str) and subj in flags:
+            val = flags[subj]
+        if val is None:
+            return None
+        return val if pos else (not val)
 
-    def collect(stmts):
-        for idx_, s_ in enumerate(stmts):
-            if isinstance(s_, ast.If):
-                k, subj, pos = q.atom_test(s_.test)
-                neg_kind = (k == "isinstance" and subj[0] == par and not pos) or (k == "isnone" and subj == par and not pos)
-                if neg_kind and not s_.orelse and s_.body and isinstance(s_.body[-1], (ast.Raise, ast.Return)):
-                    # guard clause: `if <not the kind>: <leave>` - what follows is the arm for the kind, the guarded body is what the
-                    # chain would have reached after it
-                    arms[subj[1] if k == "isinstance" else "None"] = _Rest(stmts[idx_ + 1:])
-                    collect(s_.body)
-                    return
-                if k == "isinstance" and subj[0] == par and pos:
-                    arms[subj[1]] = s_
-                elif k == "isnone" and subj == par and pos:
-                    arms["None"] = s_
-                elif k in ("isinstance", "isnone"):
-                    R.violation("C15.STRUCT", ra.qualname + ":polarity", R.site(ra, s_), "the kind test `%s` is negated: the arm handles every object except the kind it was written for" % q.src(s_.test))
-                # an if/elif chain continues in orelse
-                if s_.orelse:
-                    collect(s_.orelse)
-            elif isinstance(s_, ast.Raise):
-                default_raise.append(s_)
-    collect(ra.node.body)
+    def follow(kind):
+        from collections import deque
+        seen = set()
+        dq = deque([(rcfg.entry if isinstance(rcfg.entry, int) else rcfg.entry.id, ())])
+        ends = []
+        while dq:
+            u, fl = dq.popleft()
+            if (u, fl) in seen:
+                continue
+            seen.add((u, fl))
+            nd = rcfg.nodes[u]
+            flags = dict(fl)
+            only = None
+            if nd.kind == "test":
+                t = truth_of(nd.ast, kind, flags)
+                if t is not None:
+                    only = "T" if t else "F"
+            elif nd.kind == "stmt" and isinstance(nd.ast, ast.Assign) and len(nd.ast.targets) == 1 and isinstance(nd.ast.targets[0], ast.Name):
+                t = truth_of(nd.ast.value, kind, flags) if isinstance(nd.ast.value, (ast.Call, ast.Compare, ast.UnaryOp)) else None
+                if t is not None:
+                    flags[nd.ast.targets[0].id] = t
+                else:
+                    flags.pop(nd.ast.targets[0].id, None)
+            if nd.kind == "stmt" and isinstance(nd.ast, (ast.Return, ast.Raise)):
+                ends.append(nd.ast)
+                continue
+            nfl = tuple(sorted(flags.items()))
+            for e in rcfg.succ[u]:
+                if not rcfg.edge_ok(e, N):
+                    continue
+                if only is not None and e.label in ("T", "F") and e.label != only:
+                    continue
+                dq.append((e.dst, nfl))
+        return ends
 
-    class _Arm(object):
-        def __init__(self, node):
-            self.body = node.body
+    def through(e, depth=0):
+        """The expression with single-definition locals replaced by what they name."""
+        if depth > 3:
+            return e
+        class Sub(ast.NodeTransformer):
+            def visit_Name(self, node):
+                if isinstance(node.ctx, ast.Load) and node.id != par:
+                    vals = common.assigned_values(ra.node, node.id)
+                    if len(vals) == 1 and vals[0][0] == "expr":
+                        return through(vals[0][1], depth + 1)
+                return node
+        import copy as _copy
+        return Sub().visit(_copy.deepcopy(e))
+    reached = dict((kind, follow(kind)) for kind in ("list", "tuple", "dict", "None", "Awaitable", "ConstFuture", "other"))
     for kind in ("list", "tuple", "dict", "None", "Awaitable", "ConstFuture"):
-        R.check(kind in arms, "C15.STRUCT", ra.qualname + ":" + kind, R.site(ra), "resolve_awaitables handles %s" % kind, "resolve_awaitables no longer handles %s" % kind)
+        rets_ = [x_ for x_ in reached[kind] if isinstance(x_, ast.Return)]
+        R.check(len(rets_) == 1 and len(reached[kind]) == 1, "C15.STRUCT", ra.qualname + ":" + kind, R.site(ra), "resolve_awaitables handles %s (one way through)" % kind,
+                "resolve_awaitables no longer handles %s: an object of that kind reaches %s" % (kind, [q.src(x_)[:50] for x_ in reached[kind]] or "nothing"))
 
     def ret_of(kind):
-        a = arms.get(kind)
-        rs = [n.value for st_ in a.body for n in ast.walk(st_) if isinstance(n, ast.Return)] if a is not None else []
-        return rs[0] if len(rs) == 1 else None
+        rets_ = [x_ for x_ in reached[kind] if isinstance(x_, ast.Return)]
+        if len(rets_) != 1 or len(reached[kind]) != 1:
+            return None
+        return through(rets_[0].value) if rets_[0].value is not None else ast.Constant(value=None)
     r = ret_of("Awaitable")
     R.check(r is not None and isinstance(r, ast.Await) and q.src(r.value) == par, "C15.STRUCT", ra.qualname + ":awaitable-shape", R.site(ra),
-            "an awaitable resolves to its awaited result", "the Awaitable arm returns `%s`" % (q.src(r) if r is not None else None))
+            "an awaitable resolves to its awaited result", "the Awaitable arm returns `%s`" % (ast.unparse(r) if r is not None else None))
     r = ret_of("ConstFuture")
-    R.check(r is not None and q.src(r) == "%s.value()" % par, "C15.STRUCT", ra.qualname + ":const-shape", R.site(ra),
-            "a ConstFuture resolves to its value", "the ConstFuture arm returns `%s`" % (q.src(r) if r is not None else None))
+    R.check(r is not None and ast.unparse(r) == "%s.value()" % par, "C15.STRUCT", ra.qualname + ":const-shape", R.site(ra),
+            "a ConstFuture resolves to its value", "the ConstFuture arm returns `%s`" % (ast.unparse(r) if r is not None else None))
+    r = ret_of("None")
+    R.check(r is not None and ast.unparse(r) in ("None", par), "C15.STRUCT", ra.qualname + ":none-shape", R.site(ra), "None resolves to None",
+            "the None arm returns `%s`" % (ast.unparse(r) if r is not None else None))
     gl = "await _gather([resolve_awaitables(item) for item in %s])" % par
     r = ret_of("list")
-    R.check(r is not None and q.src(r) == gl, "C15.STRUCT", ra.qualname + ":list-shape", R.site(ra), "a list resolves to the list of its resolved members, in order",
-            "the list arm returns `%s`" % (q.src(r) if r is not None else None))
+    R.check(r is not None and ast.unparse(r) == gl, "C15.STRUCT", ra.qualname + ":list-shape", R.site(ra), "a list resolves to the list of its resolved members, in order",
+            "the list arm returns `%s`" % (ast.unparse(r) if r is not None else None))
     r = ret_of("tuple")
-    R.check(r is not None and q.src(r) == "tuple(%s)" % gl, "C15.STRUCT", ra.qualname + ":tuple-shape", R.site(ra), "a tuple resolves to a tuple, in order",
-            "the tuple arm returns `%s`" % (q.src(r) if r is not None else None))
+    R.check(r is not None and ast.unparse(r) == "tuple(%s)" % gl, "C15.STRUCT", ra.qualname + ":tuple-shape", R.site(ra), "a tuple resolves to a tuple, in order",
+            "the tuple arm returns `%s`" % (ast.unparse(r) if r is not None else None))
     r = ret_of("dict")
-    okd = isinstance(r, ast.DictComp) and q.src(r.generators[0].iter).startswith("zip(%s.keys()," % par) and isinstance(r.key, ast.Name)
-    okd = okd or (isinstance(r, ast.Call) and q.call_name(r) == "dict" and len(r.args) == 1 and q.src(r.args[0]).startswith("zip(%s.keys()," % par))
-    # ... and the values come from the wait-for-all helper
-    darm = arms.get("dict")
-    gath = [c for st_ in (darm.body if darm is not None else []) for c in q.calls(st_) if q.call_name(c) == "_gather"]
-    okd = okd and len(gath) == 1
+    okd = isinstance(r, ast.DictComp) and ast.unparse(r.generators[0].iter).startswith("zip(%s.keys()," % par) and isinstance(r.key, ast.Name)
+    okd = okd or (isinstance(r, ast.Call) and q.call_name(r) == "dict" and len(r.args) == 1 and ast.unparse(r.args[0]).startswith("zip(%s.keys()," % par))
+    # ... and the values come from the wait-for-all helper, once
+    gath = [c for c in ast.walk(r) if isinstance(c, ast.Call) and q.call_name(c) == "_gather"] if r is not None else []
+    okd = okd and len(gath) == 1 and ("%s.values()" % par) in ast.unparse(gath[0])
     R.check(okd, "C15.STRUCT", ra.qualname + ":dict-shape", R.site(ra), "a dict resolves to a dict with the same keys in the same order", "the dict arm does not rebuild the dict from its own keys in order")
-    raises = default_raise
-    R.check(len(raises) == 1 and (q.call_name(raises[0].exc) == "TypeError"), "C15.STRUCT", ra.qualname + ":default", R.site(ra),
+    raises = [x_ for x_ in reached["other"] if isinstance(x_, ast.Raise)]
+    R.check(len(raises) == 1 and len(reached["other"]) == 1 and (q.call_name(raises[0].exc) == "TypeError"), "C15.STRUCT", ra.qualname + ":default", R.site(ra),
             "anything else raises TypeError (as unwrap does)", "an unsupported yielded object no longer raises TypeError")
     # ---- GATHER
     g = repo.fn("asynq_to_async._gather")
